@@ -141,9 +141,19 @@ func genBufferCase(r *Rng) *microCase {
 			wops = append(wops, AZ(v))
 		}
 	}
-	out := hookBuffer(cap0, ops)
-	return &microCase{wire: L(A(8), A(uint64(cap0)), LL(wops)), impl: S(string(out)), nontrivial: len(out) > cap0, class: "buffer",
-		desc: map[string]interface{}{"kind": "LocalBuffer", "cap": cap0, "ops": fmt.Sprint(ops)}}
+	desc := map[string]interface{}{"kind": "LocalBuffer", "cap": cap0, "ops": fmt.Sprint(ops)}
+	var out []byte
+	panicked := func() (p interface{}) {
+		defer func() { p = recover() }()
+		out = hookBuffer(cap0, ops)
+		return nil
+	}()
+	if panicked != nil {
+		desc["predicate_failed"] = fmt.Sprintf("LocalBuffer panicked while appending: %v", panicked)
+		return &microCase{wire: L(A(8), A(uint64(cap0)), LL(wops)), impl: L(A(2)), nontrivial: true, class: "buffer", desc: desc}
+	}
+	// the contents and the capacity the buffer ends up with (the growth policy: double, or twice what is needed)
+	return &microCase{wire: L(A(8), A(uint64(cap0)), LL(wops)), impl: L(S(string(out)), AZ(int64(cap(out)))), nontrivial: len(out) > cap0, class: "buffer", desc: desc}
 }
 
 func genHexCase(r *Rng) *microCase {
